@@ -35,7 +35,8 @@ import c06
 META = dict(
     technique='Coq theorems over a character-level model of the OPB and LaTeX writers (opb_roundtrip with an independent '
               'reader, opb_shape, for every header and name list; latex_rows_*, latex_rows_literals) + extracted-model differential check (texts byte for byte; the model\'s '
-              'reader / decoder run on the implementation\'s output)',
+              'reader / decoder run on the implementation\'s output) + the same at the level of the tools (Prop_C12_pipeline.v: the LaTeX document, the varname '
+              'lines and the OPB text cnfgen / pbgen write for any argv of the pipeline grammar decode to the formula of the family model; byte for byte against the real tools)',
     category='proof',
     text='Machine-checked theorems state, for every CNF or pseudo-Boolean formula with literals in range and operators >= / ==, '
          'every header and every list of variable names (line breaks included), that an independent OPB reader applied to the written text returns the '
@@ -1092,6 +1093,8 @@ def run(ctx):
     run_shapes(ctx, cnfgen, quick)
     run_history(ctx, cnfgen, quick)
     run_small(ctx, cnfgen, quick, build(ctx, cnfgen, quick), '')
+    import c12_pipeline
+    c12_pipeline.run_latex_pipeline(ctx)
     ctx.assumptions.append('LaTeX decoder theorem: names without white space; characters above 255 outside the model')
     ctx.assumptions.append('outputs of several megabytes: the statement is checked directly on the text (independent OPB reader and LaTeX row '
                            'decoder written in Python, tied to the model\'s reader / decoder on every small case of the run)')
